@@ -91,6 +91,9 @@ pub struct ArgSpec {
     pub short_aliases: Vec<(char, bool)>,
     #[serde(skip_serializing_if = "is_default")]
     pub action: Action,
+    /// do not call `Arg::action`: the library has to infer `action` itself (only honoured where that is what it infers)
+    #[serde(skip_serializing_if = "is_default")]
+    pub action_inferred: bool,
     /// explicit `num_args(min..=max)`; max == usize::MAX means unbounded
     #[serde(skip_serializing_if = "is_default")]
     pub num_args: Option<(usize, usize)>,
@@ -168,6 +171,9 @@ pub struct ArgSpec {
     pub requires: Vec<String>,
     #[serde(skip_serializing_if = "is_default")]
     pub requires_ifs: Vec<(Pred, String)>,
+    /// declare conflicts / overrides / conditional requirements through the plural builder methods
+    #[serde(skip_serializing_if = "is_default")]
+    pub plural_builders: bool,
     #[serde(skip_serializing_if = "is_default")]
     pub required_if_eq_any: Vec<(String, String)>,
     #[serde(skip_serializing_if = "is_default")]
@@ -254,6 +260,9 @@ pub struct Settings {
     /// infer_long_args / infer_subcommands / args_override_self / dont_delimit_trailing_values of this level are
     /// the values in effect through an ancestor and are not set on this command itself
     pub inherit_globals: bool,
+    /// build the command with explicit positional indices and the positionals declared in reverse order (the
+    /// description keeps listing them in index order)
+    pub positionals_declared_backwards: bool,
     #[serde(skip_serializing_if = "is_default")]
     pub disable_help_flag: bool,
     #[serde(skip_serializing_if = "is_default")]
@@ -398,8 +407,16 @@ impl ArgSpec {
         for (c, vis) in &self.short_aliases {
             a = if *vis { a.visible_short_alias(*c) } else { a.short_alias(*c) };
         }
-        a = a.action(match self.action {
-            Action::Set => ArgAction::Set,
+        // `action_inferred`: leave the action to the library's default inference (value-taking arguments: Append for a
+        // positional with an unbounded number of values, Set otherwise); `action` states what that must come out as
+        let inferable = match self.action {
+            Action::Append => self.is_positional() && self.num_args.map(|(_, hi)| hi == usize::MAX).unwrap_or(false),
+            Action::Set => !(self.is_positional() && self.num_args.map(|(_, hi)| hi == usize::MAX).unwrap_or(false)) && self.num_args.map(|(_, hi)| hi > 0).unwrap_or(true),
+            _ => false,
+        };
+        if !(self.action_inferred && inferable) {
+            a = a.action(match self.action {
+                Action::Set => ArgAction::Set,
             Action::Append => ArgAction::Append,
             Action::SetTrue => ArgAction::SetTrue,
             Action::SetFalse => ArgAction::SetFalse,
@@ -407,8 +424,9 @@ impl ArgSpec {
             Action::Help => ArgAction::Help,
             Action::HelpShort => ArgAction::HelpShort,
             Action::HelpLong => ArgAction::HelpLong,
-            Action::Version => ArgAction::Version,
-        });
+                Action::Version => ArgAction::Version,
+            });
+        }
         if let Some((lo, hi)) = self.num_args {
             a = if hi == usize::MAX { a.num_args(lo..) } else { a.num_args(lo..=hi) };
         }
@@ -543,17 +561,33 @@ impl ArgSpec {
         if let Some(h) = &self.value_hint {
             a = a.value_hint(value_hint(h));
         }
-        for c in &self.conflicts_with {
-            a = a.conflicts_with(c.clone());
-        }
-        for c in &self.overrides_with {
-            a = a.overrides_with(c.clone());
-        }
-        for c in &self.requires {
-            a = a.requires(c.clone());
-        }
-        for (p, t) in &self.requires_ifs {
-            a = a.requires_if(pred(p), t.clone());
+        if self.plural_builders {
+            // the same relations through the plural builder methods
+            if !self.conflicts_with.is_empty() {
+                a = a.conflicts_with_all(self.conflicts_with.iter().cloned());
+            }
+            if !self.overrides_with.is_empty() {
+                a = a.overrides_with_all(self.overrides_with.iter().cloned());
+            }
+            for c in &self.requires {
+                a = a.requires(c.clone());
+            }
+            if !self.requires_ifs.is_empty() {
+                a = a.requires_ifs(self.requires_ifs.iter().map(|(p, t)| (pred(p), t.clone())));
+            }
+        } else {
+            for c in &self.conflicts_with {
+                a = a.conflicts_with(c.clone());
+            }
+            for c in &self.overrides_with {
+                a = a.overrides_with(c.clone());
+            }
+            for c in &self.requires {
+                a = a.requires(c.clone());
+            }
+            for (p, t) in &self.requires_ifs {
+                a = a.requires_if(pred(p), t.clone());
+            }
         }
         if !self.required_if_eq_any.is_empty() {
             a = a.required_if_eq_any(self.required_if_eq_any.iter().map(|(i, v)| (i.clone(), v.clone())));
@@ -686,8 +720,25 @@ impl CmdSpec {
         if let Some(o) = self.display_order {
             c = c.display_order(o);
         }
-        for a in &self.args {
-            c = c.arg(a.to_clap());
+        if s.positionals_declared_backwards && self.args.iter().filter(|a| a.is_positional()).all(|a| a.index.is_none()) {
+            // same command, other declaration order: explicit indices, positionals added last-to-first
+            let mut k = 0;
+            let mut pos = Vec::new();
+            for a in &self.args {
+                if a.is_positional() {
+                    k += 1;
+                    pos.push(a.to_clap().index(k));
+                } else {
+                    c = c.arg(a.to_clap());
+                }
+            }
+            for a in pos.into_iter().rev() {
+                c = c.arg(a);
+            }
+        } else {
+            for a in &self.args {
+                c = c.arg(a.to_clap());
+            }
         }
         for g in &self.groups {
             let mut cg = ArgGroup::new(g.id.clone())
